@@ -737,6 +737,15 @@ def plan_third_party(seed, tier):
                 if rng.random() < 0.25:     # the same reader object asked again
                     b.op(op="READ", fmt=fmt, path=path, pathstyle=rop["pathstyle"],
                          reader="reuse")
+            elif k < 0.85 and fmt == "afm":
+                cuts = [c for c in range(1, len(text)) if peers.afm_prefix_is_invalid(text, c)]
+                if not cuts:
+                    continue
+                cut = rng.choice(cuts)
+                b.op(op="PUT", path=path, fmt=fmt, b64=_b64(text[:cut]), prop="C09",
+                     tags=tags + ["invalid.cut_inside_statement"],
+                     expect={"kind": "raise", "why": "cut_inside_statement"})
+                b.op(op="READ", fmt=fmt, path=path, pathstyle="abs")
             elif k < 0.85 and fmt in ("fide", "xml", "glencoe"):
                 data = text.encode("utf-8")
                 body = data.rstrip()
